@@ -438,6 +438,83 @@ fn kernels(ctx: &Ctx) {
     }
 }
 
+/// E3 history exploration on ONE chain: operations {step with u low / at the threshold / high, relocate the
+/// public current_state, replace the public target}; after every step the rule is checked with the log-density of
+/// the ACTUAL current state under the ACTUAL target (a stale cache of either would show here).
+fn histories(ctx: &Ctx) {
+    let l = |x: f64| x.ln() as f32;
+    let tables: Vec<Vec<f32>> = vec![vec![l(1.0), l(2.0), l(4.0)], vec![l(5.0), l(1.0), l(1.0)], vec![l(1.0), f32::NEG_INFINITY, l(3.0)]];
+    let lq: Vec<Vec<f32>> = vec![vec![l(0.5), l(0.25), l(0.25)], vec![l(0.5), l(0.25), l(0.25)], vec![l(0.25), l(0.5), l(0.25)]];
+    #[derive(Clone, Copy, Debug)]
+    enum Op {
+        Step(usize, u8), // candidate, u class (0 low, 1 just accept, 2 just reject, 3 high)
+        SetState(usize),
+        SetTarget(usize),
+    }
+    let mut alphabet = vec![];
+    for y in 0..3 {
+        for c in 0..4u8 {
+            alphabet.push(Op::Step(y, c));
+        }
+    }
+    for s in 0..3 {
+        alphabet.push(Op::SetState(s));
+    }
+    for t in 0..3 {
+        alphabet.push(Op::SetTarget(t));
+    }
+    let depth = ctx.tier.pick(3usize, 4);
+    let total = alphabet.len().pow(depth as u32);
+    (0..total).into_par_iter().for_each(|idx| {
+        let mut i = idx;
+        let ops: Vec<Op> = (0..depth).map(|_| { let o = alphabet[i % alphabet.len()]; i /= alphabet.len(); o }).collect();
+        // skip histories without a step after a mutation or a step (nothing new to observe): keep all, they are cheap
+        let mut chain = MHMarkovChain::<i32, f32, _, _>::new(TableTarget { lp: tables[0].clone() }, TableProposal { next: 0, lq: lq.clone() }, vec![0i32]);
+        let mut cur_table = 0usize;
+        let case = json!({"level": "history", "ops": format!("{ops:?}")});
+        for (n, op) in ops.iter().enumerate() {
+            match *op {
+                Op::SetState(s) => chain.current_state = vec![s as i32],
+                Op::SetTarget(t) => {
+                    chain.target = TableTarget { lp: tables[t].clone() };
+                    cur_table = t;
+                }
+                Op::Step(y, class) => {
+                    let x = chain.current_state[0] as usize;
+                    let (lp_x, lp_y, qf, qb) = (tables[cur_table][x], tables[cur_table][y], lq[x][y], lq[y][x]);
+                    let r = (lp_y + qb) - (lp_x + qf);
+                    let t = first_reject_index::<f32>(r);
+                    let g = <f32 as UFloat>::GRID;
+                    let k = match class { 0 => 0, 1 => t.saturating_sub(1), 2 => t.min(g - 1), _ => g - 1 };
+                    chain.proposal.next = y;
+                    chain.rng = <f32 as UFloat>::rng_for(k);
+                    ctx.transitions(1);
+                    let st = match catch(|| chain.step().clone()) {
+                        Ok(s) => s,
+                        Err(m) => {
+                            ctx.violation(Violation::new("C01:panic", format!("step panicked in history {ops:?}: {m}"), case.clone()));
+                            return;
+                        }
+                    };
+                    let want = rule_accepts(lp_x, lp_y, qf, qb, <f32 as UFloat>::variate(k));
+                    let expect = if want { y } else { x };
+                    if st[0] as usize != expect {
+                        ctx.violation(Violation::new(
+                            "C01:rule(after-history)",
+                            format!("operation {n} of history {ops:?}: from x={x} (log p {lp_x}) to y={y} (log p {lp_y}) with u variate {k}: rule says {} but the chain is at {}", if want { "move" } else { "stay" }, st[0]),
+                            case.clone(),
+                        ));
+                        return;
+                    }
+                }
+            }
+        }
+        ctx.evals(1);
+        ctx.state(hash_of(&idx));
+    });
+    ctx.outcome("histories-explored", total as u64);
+}
+
 pub fn run(ctx: &Ctx) {
     // machinery self-check: crafted generators really yield the requested variates
     for k in [0u64, 1, 12345, (1 << 24) - 1] {
@@ -455,7 +532,7 @@ pub fn run(ctx: &Ctx) {
         }
     }
     let _ = SmallRng::seed_from_u64(0);
-    ctx.rule("step level: (log p(x), log p(y), log q(y|x), log q(x|y)) over {ln1,ln2,ln3,-745,-inf,+inf,NaN}^2 x {0,ln1/2,ln1/4,-inf,NaN}^2 (1225 combinations) x state types {i32,f32,f64} (incl. -0.0 / NaN-payload / subnormal encodings of x) x float types {f32,f64}, acceptance draw injected through the public rng at {0, 1, 2 grid units, the exact accept/reject threshold and 3 neighbours either side, 1-ulp, 1/2}; for f32: ALL 2^24 variates for 9 branch classes; kernel level: exact acceptance probabilities A(x,y) = #accepting variates / 2^24 on finite spaces K=2 (quick) / 2..4 (thorough), detailed balance and pi P = pi. states = distinct (types, combination) / kernel pairs; transitions = real step() calls");
+    ctx.rule("step level: (log p(x), log p(y), log q(y|x), log q(x|y)) over {ln1,ln2,ln3,-745,-inf,+inf,NaN}^2 x {0,ln1/2,ln1/4,-inf,NaN}^2 (1225 combinations) x state types {i32,f32,f64} (incl. -0.0 / NaN-payload / subnormal encodings of x) x float types {f32,f64}, acceptance draw injected through the public rng at {0, 1, 2 grid units, the exact accept/reject threshold and 3 neighbours either side, 1-ulp, 1/2}; for f32: ALL 2^24 variates for 9 branch classes; history level (E3): all sequences of <= 3 (4) operations {step to candidate y with u low / just accepting / just rejecting / high, relocate the public current_state, replace the public target} on one chain, the rule re-checked after every step against the actual state and target; kernel level: exact acceptance probabilities A(x,y) = #accepting variates / 2^24 on finite spaces K=2 (quick) / 2..4 (thorough), detailed balance and pi P = pi. states = distinct (types, combination) / kernel pairs; transitions = real step() calls");
     step_level::<i32, f32>(ctx);
     step_level::<i32, f64>(ctx);
     step_level::<f32, f32>(ctx);
@@ -464,6 +541,7 @@ pub fn run(ctx: &Ctx) {
         step_level::<f32, f64>(ctx);
         step_level::<f64, f32>(ctx);
     }
+    histories(ctx);
     sweeps(ctx);
     kernels(ctx);
     ctx.sample(json!({"step": {"lp_x": "ln 2", "lp_y": "ln 1", "q_fwd": "ln 1/2", "q_back": "ln 1/4", "u": "largest f32 variate with ln u < ratio, and its successor"}}));
@@ -499,6 +577,8 @@ pub fn check_case(ctx: &Ctx, case: &Value) {
             (Some("f64"), Some("f64")) => go!(f64, f64),
             _ => {}
         }
+    } else if case["level"].as_str() == Some("history") {
+        histories(ctx);
     } else {
         kernels(ctx);
     }
